@@ -70,13 +70,13 @@ def mix_constants(mix, inspect_next=False):
     return consts, pk
 
 
-REL = ["discard", "await", "dtor"]
+REL = ["discard", "await", "dtor", "assign"]
 
 
 def header(pk, k):
     rel = {}
     for i, (p, kind) in enumerate(sorted(pk.items())):
-        r = REL[(k + i) % 3]
+        r = REL[(k + i) % 4]
         if kind != "co" and r == "await":
             r = "dtor"
         rel[p] = r
@@ -156,7 +156,7 @@ def proj_rounds(st, cfg):
 def header_rounds(cfg, k):
     rel = {}
     for i, (p, kind) in enumerate(sorted(cfg["P"].items())):
-        rel[p] = "await" if p in cfg.get("await", []) else ("discard", "dtor")[(k + i) % 2]
+        rel[p] = "await" if p in cfg.get("await", []) else ("discard", "dtor", "assign")[(k + i) % 3]
     return {"P": cfg["P"], "rel": rel, "rounds": {p: cfg["rounds"].get(p, 1) for p in cfg["P"]}, "foreign": sorted(cfg.get("foreign", []))}
 
 
